@@ -75,11 +75,14 @@ type LabCase struct {
 	RefSchemaText string // what the reference validator reads (differs only for OpenAPI mappings)
 	SchemaPath    string
 
-	GoFlags    GoFlags
-	Builders   bool
-	Converters bool
-	Veneers    string // builder veneers (YAML, %PKG% already replaced) applied to this case; "" = none
-	VeneersDir string
+	GoFlags       GoFlags
+	Builders      bool
+	Converters    bool
+	LibPkg        string // two-package CUE case (AddCaseCueLib): cog / Go / Python package of the library, "" otherwise
+	LibSchemaText string
+	LibSchemaPath string
+	Veneers       string // builder veneers (YAML, %PKG% already replaced) applied to this case; "" = none
+	VeneersDir    string
 
 	GenErr string            // pipeline error or "PANIC: …"; "" when generation succeeded
 	Files  map[string][]byte // pipeline output, keys as cog names them: go/<pkg>/…, python/…, jsonschema/…, openapi/…
@@ -264,6 +267,35 @@ func (l *Lab) AddCaseText(format, text string, defs *Defs) *LabCase {
 	return c
 }
 
+// AddCaseCueLib adds a case made of TWO cog packages (CUE only): a library package and a main
+// package that may `import "example.com/%LIB%"`. The case ID (c<idx>cue) names the main package,
+// the library is <caseID>lib; %PKG% / %LIB% in both texts (and %PKG% in veneersYAML) are replaced
+// by those names. The pipeline gets two inputs — {cue: lib}, {cue: main, cue_imports:
+// [<libdir>:example.com/<lib>]} — for the generation run and for the chain IR; the generated Go
+// and Python of both packages go into the lab (go/<caseID>/, go/<caseID>lib/, models/<caseID>.py,
+// models/<caseID>lib.py). IRGo / BuildersGo cover both packages; GoObjects / PyObjects and the
+// standard ops are those of the main package. GoOK is false if either package fails to compile.
+func (l *Lab) AddCaseCueLib(libText, mainText string, flags GoFlags, builders, converters bool, veneersYAML string) *LabCase {
+	t0 := time.Now()
+	defer l.timed("generate", t0)
+	idx := len(l.Cases)
+	c := &LabCase{Idx: idx, ID: fmt.Sprintf("c%dcue", idx), Format: "cue", GoFlags: flags, Builders: builders || converters, Converters: converters}
+	c.LibPkg = c.ID + "lib"
+	l.Cases = append(l.Cases, c)
+	rep := strings.NewReplacer("%PKG%", c.ID, "%LIB%", c.LibPkg)
+	c.SchemaText, c.LibSchemaText = rep.Replace(mainText), rep.Replace(libText)
+	if veneersYAML != "" {
+		c.Veneers = rep.Replace(veneersYAML)
+		c.VeneersDir = filepath.Join(l.Dir, "veneers", c.ID)
+		if err := l.writeFile(filepath.Join("veneers", c.ID, "v.yaml"), []byte(c.Veneers)); err != nil {
+			c.GenErr = "lab: " + err.Error()
+			return c
+		}
+	}
+	l.generate(c)
+	return c
+}
+
 func (l *Lab) generate(c *LabCase) {
 	flags := c.GoFlags
 	path, err := writeSchemaFile(filepath.Join(l.Dir, "schemas"), c.Format, c.ID, c.SchemaText)
@@ -272,6 +304,14 @@ func (l *Lab) generate(c *LabCase) {
 		return
 	}
 	c.SchemaPath = path
+	if c.LibPkg != "" {
+		lp, err := writeSchemaFile(filepath.Join(l.Dir, "schemas"), "cue", c.LibPkg, c.LibSchemaText)
+		if err != nil {
+			c.GenErr = "lab: " + err.Error()
+			return
+		}
+		c.LibSchemaPath = lp
+	}
 	lr := l.labRun(c)
 	files, err := lr.run()
 	if err != nil {
@@ -299,7 +339,8 @@ func (l *Lab) generate(c *LabCase) {
 }
 
 func (l *Lab) labRun(c *LabCase) labRun {
-	lr := labRun{Format: c.Format, Path: c.SchemaPath, Package: c.ID, Builders: c.Builders, Convert: c.Converters, VeneersDir: c.VeneersDir}
+	lr := labRun{Format: c.Format, Path: c.SchemaPath, Package: c.ID, Builders: c.Builders, Convert: c.Converters, VeneersDir: c.VeneersDir,
+		LibPath: c.LibSchemaPath, LibPackage: c.LibPkg}
 	if !l.Opts.NoGo {
 		lr.GoCfg = &golang.Config{GenerateJSONMarshaller: c.GoFlags.JSONMarshaller, GenerateStrictUnmarshaller: c.GoFlags.StrictUnmarshaller,
 			GenerateEqual: c.GoFlags.Equal, GenerateValidate: c.GoFlags.Validate, AnyAsInterface: c.GoFlags.AnyAsInterface,
